@@ -2,6 +2,8 @@
 
 use std::cell::RefCell;
 
+pub mod c08;
+pub mod c09;
 pub mod c13;
 pub mod dump;
 pub mod engine;
